@@ -296,6 +296,13 @@ def run(ctx):
            len(mapped) == 1 and len(plainw) == 1 and len(wk) == 2, construct="self.weekday assignment",
            detail="assignments: %s" % [src(n.ast) for n in wk])
 
+    # ---------------------------------------------------------------- C16.ARGS / C16.PRESENCE
+    from ..rules_common import check_call_arguments, check_presence_tests, ARG_SCOPE
+    check_call_arguments(ctx, "C16.ARGS", "C16")
+    from ..rules_common import check_effect_tables
+    check_effect_tables(ctx, "C16")
+    check_presence_tests(ctx, "C16.PRESENCE", classes=ARG_SCOPE.get("C16", []))
+
 
 def check_weekday_normaliser(ctx, eq, hs, elts):
     """weekday is compared under an equivalence on n: the hash must go through a normaliser with the same classes."""
